@@ -3608,6 +3608,38 @@ impl ContinuityStore {
     }
 
     fn load_next_seq_for(&self, continuity_id: &str) -> Result<u64, io::Error> {
+        // The log decides.  The sidecar is a cache that may lag it (the process died between the log
+        // append and the sidecar append, or a concurrent rebuild rewrote an older replay): numbering
+        // from a stale sidecar tail would re-issue a seq that is already in the log.
+        match self
+            .event_log
+            .last_seq(StreamKind::Continuity, continuity_id)
+        {
+            Ok(Some(last_seq)) => {
+                let cached = self.stream_cache.try_read_last_seq(continuity_id);
+                if !matches!(cached, Ok(Some(seq)) if seq == last_seq) {
+                    if let Ok(events) = self
+                        .event_log
+                        .replay_stream(StreamKind::Continuity, continuity_id)
+                    {
+                        if !events.is_empty() {
+                            self.stream_cache
+                                .rebuild_best_effort(continuity_id, &events);
+                        }
+                    }
+                }
+                return Ok(last_seq.saturating_add(1));
+            }
+            Ok(None) => {
+                return Err(io::Error::new(
+                    io::ErrorKind::NotFound,
+                    "continuity stream does not exist",
+                ));
+            }
+            // An unreadable log cannot be numbered from: keep appends available from the sidecar.
+            Err(_) => {}
+        }
+
         if let Ok(Some(last_seq)) = self.stream_cache.try_read_last_seq(continuity_id) {
             return Ok(last_seq.saturating_add(1));
         }
@@ -4223,6 +4255,52 @@ mod tests {
         let (_event_log2, store2, _data_dir2) = store_for(&dir);
         let second = store2.ensure_default().expect("ensure");
         assert_eq!(first, second);
+    }
+
+    #[test]
+    fn append_after_restart_numbers_from_log_when_sidecar_lags() {
+        let dir = tempdir().expect("tmp");
+        let (_event_log, store, data_dir) = store_for(&dir);
+        let continuity_id = store.ensure_default().expect("ensure");
+        for content in ["one", "two"] {
+            store
+                .append_message(
+                    &continuity_id,
+                    "user".to_string(),
+                    "cli".to_string(),
+                    content.to_string(),
+                )
+                .expect("append");
+        }
+
+        // What a crash between the log append and the sidecar append leaves behind: the sidecar
+        // is a well-formed proper prefix of the stream.
+        let sidecar = data_dir
+            .join("continuity_streams")
+            .join(format!("{continuity_id}.jsonl"));
+        let text = fs::read_to_string(&sidecar).expect("sidecar");
+        let kept: Vec<&str> = text.lines().take(2).collect();
+        fs::write(&sidecar, format!("{}\n", kept.join("\n"))).expect("truncate sidecar");
+
+        let (event_log2, store2, _data_dir2) = store_for(&dir);
+        store2
+            .append_message(
+                &continuity_id,
+                "user".to_string(),
+                "cli".to_string(),
+                "three".to_string(),
+            )
+            .expect("append after restart");
+
+        let events = event_log2.replay_validated().expect("log stays valid");
+        let seqs: Vec<u64> = events
+            .iter()
+            .filter(|event| event.session_id == continuity_id)
+            .map(|event| event.seq)
+            .collect();
+        assert_eq!(seqs, vec![0, 1, 2, 3]);
+        let cached = store2.replay_events(&continuity_id).expect("replay");
+        assert_eq!(cached.len(), 4);
     }
 
     #[test]
